@@ -5,6 +5,7 @@ import (
 	"errors"
 	"fmt"
 	"io"
+	"math"
 	"strings"
 	"testing"
 
@@ -15,7 +16,7 @@ import (
 	"verif/harness/stats"
 )
 
-const ruleC20 = "rapid-generated limit L (7..64, 4090..4100, default 65536, 70000) given through ReadConfig.MaxEventSize or Connection.Buffer(buf, L) with cap(buf) <= L, and streams built from blocks (blank lines + event lines + terminator, LF/CR/CRLF) whose total size is drawn around L, 2L, L/2 and 4096 (+-4), plus endless single lines, endless events without a blank line, blank-line-only and comment-only streams; read plans as C01 plus large chunks, through a counting reader. Oracle from the reference interpreter's block table: each block needs a buffer of R = size - (1 if its final terminator is CRLF) + (0 or 1 left-over LF of a preceding CRLF-terminated block) bytes; R <= L for every block => result identical to the reference; otherwise exactly the events of blocks 0..j-1 intact, then bufio.ErrTooLong and nothing else, where j is the first block whose smallest R exceeds L (or an earlier block for which only the left-over byte decides), and at most L bytes were pulled beyond the end of block j-1; an unterminated tail overflows iff it fills the buffer before EOF is seen. Never a panic. Non-trivial: some block is within +-8 bytes of L or of 4096, or an unterminated run >= L exists. Distinct: FNV-64 of the JSON of the case."
+const ruleC20 = "rapid-generated limit L (7..64, 4090..4100, default 65536, 70000, and 3% huge: 2^31-1 .. MaxInt with blocks of 1000..100000 bytes) given through ReadConfig.MaxEventSize or Connection.Buffer(buf, L) with cap(buf) <= L, and streams built from blocks (blank lines + event lines + terminator, LF/CR/CRLF) whose total size is drawn around L, 2L, L/2 and 4096 (+-4), plus endless single lines, endless events without a blank line, blank-line-only and comment-only streams; read plans as C01 plus large chunks, through a counting reader. Oracle from the reference interpreter's block table: each block needs a buffer of R = size - (1 if its final terminator is CRLF) + (0 or 1 left-over LF of a preceding CRLF-terminated block) bytes; R <= L for every block => result identical to the reference; otherwise exactly the events of blocks 0..j-1 intact, then bufio.ErrTooLong and nothing else, where j is the first block whose smallest R exceeds L (or an earlier block for which only the left-over byte decides), and at most L bytes were pulled beyond the end of block j-1; an unterminated tail overflows iff it fills the buffer before EOF is seen. Never a panic. Non-trivial: some block is within +-8 bytes of L or of 4096, or an unterminated run >= L exists. Distinct: FNV-64 of the JSON of the case."
 
 type BlockSpec struct {
 	Blank   int    `json:"blank,omitempty"` // blank lines before the event
@@ -26,13 +27,13 @@ type BlockSpec struct {
 }
 
 type C20Case struct {
-	L      int         `json:"l"` // 0: default limit
-	Via    string      `json:"via"`
-	BufCap int         `json:"bufcap,omitempty"` // Connection.Buffer: capacity of the supplied buffer (<= L)
-	Blocks []BlockSpec `json:"blocks"`
-	Plan   Plan        `json:"plan"`
-	Raw    stats.B     `json:"raw,omitempty"` // when set, the stream is exactly this (cases found by the native fuzzer)
-	CfgKind int        `json:"cfgkind,omitempty"` // default limit (L == 0): 0 nil config | 1 &ReadConfig{} | 2 MaxEventSize: -1 ("By default this limit is 64KB")
+	L       int         `json:"l"` // 0: default limit
+	Via     string      `json:"via"`
+	BufCap  int         `json:"bufcap,omitempty"` // Connection.Buffer: capacity of the supplied buffer (<= L)
+	Blocks  []BlockSpec `json:"blocks"`
+	Plan    Plan        `json:"plan"`
+	Raw     stats.B     `json:"raw,omitempty"`     // when set, the stream is exactly this (cases found by the native fuzzer)
+	CfgKind int         `json:"cfgkind,omitempty"` // default limit (L == 0): 0 nil config | 1 &ReadConfig{} | 2 MaxEventSize: -1 ("By default this limit is 64KB")
 }
 
 func (c C20Case) limit() int {
@@ -49,10 +50,13 @@ func genC20(t *rapid.T) C20Case {
 		c.L = 7 + stats.Pick(t, 58, "lsmall")
 	case k < 80:
 		c.L = 4090 + stats.Pick(t, 11, "l4k")
-	case k < 94:
+	case k < 93:
 		c.L = 0
-	default:
+	case k < 97:
 		c.L = 70000
+	default:
+		// limits far beyond anything a stream will reach (and beyond 32 bits): nothing may overflow
+		c.L = stats.From(t, []int{1<<31 - 1, 1 << 31, 1<<31 + 70000, 1 << 32, 1<<32 + 1000, 1 << 40, math.MaxInt}, "lhuge")
 	}
 	L := c.limit()
 	if c.L == 0 {
@@ -62,7 +66,13 @@ func genC20(t *rapid.T) C20Case {
 	if c.L == 0 && c.Via != "read" {
 		c.Via = "read" // the default limit is not configurable through Buffer
 	}
-	if c.Via == "conn" {
+	huge := L > 1<<20
+	if huge && c.Via == "connbuf" {
+		c.Via = "conn" // connbuf supplies a buffer of L bytes
+	}
+	if c.Via == "conn" && huge {
+		c.BufCap = stats.From(t, []int{0, 1, 16, 4096, 70000}, "bufcap")
+	} else if c.Via == "conn" {
 		c.BufCap = min(L, stats.From(t, []int{0, 1, 16, L / 2, L}, "bufcap")) // documented precondition of bufio.Scanner.Buffer: cap(buf) <= max
 	}
 	n := 1 + stats.Pick(t, 5, "nblocks")
@@ -74,6 +84,8 @@ func genC20(t *rapid.T) C20Case {
 		switch k := stats.Pct(t, "sizekind"); {
 		case k < 35:
 			base = 12 + stats.Pick(t, 20, "small")
+		case huge:
+			base = stats.From(t, []int{1000, 4096, 65536, 70000, 100000}, "hugebase")
 		case k < 75:
 			base = L
 		case k < 82:
